@@ -321,6 +321,91 @@ def probe(hist):
         b.close()
 
 
+ZA, ZB = 0xB0, 0xB1
+
+
+def burst_worker(item):
+    """non-quiescent histories: a faulty outbound transfer X->Y is started and, tau after it, while its tail may still be
+    in flight, a burst of transfers to ANOTHER stack Z (the first one ahead of the rest): every call must be accepted
+    (sessions / pairs are free), every accepted message delivered intact, everything idle at the end"""
+    cfg, fault, tau, seed = item
+    acc = Acc()
+    dll = cfg[1]
+    wx, wy, exact = cfg[2], cfg[3], cfg[4]
+    sc = {'dll': dll, 'base_lat': 1e-3,
+          'stacks': [{'name': 'X', 'cas': [XA, XB], 'win': wx}, {'name': 'Y', 'cas': [YA, YB], 'win': wy},
+                     {'name': 'Z', 'cas': [ZA, ZB], 'win': wy}]}
+    net = Net(sc)
+    try:
+        w = net.w
+        y = net.stacks[1]
+        big, bsz = sizes(dll, exact)
+        count = [0]
+
+        def on_pair(fr):
+            # frames of the first transfer's address pair, numbered from 0
+            if {fr.sa, fr.ps} == {XA, YA}:
+                count[0] += 1
+                return count[0] - 1
+            return None
+        if fault[0] == 'lost':
+            net.bus.drop_fn = lambda fr: on_pair(fr) == fault[1]
+        elif fault[0] == 'silent':
+            def tap(fr):
+                k = on_pair(fr)
+                if k is not None and k + 1 == fault[1]:
+                    y.silent_from = len(net.bus.log)
+            if fault[1] == 0:
+                y.silent_from = 0
+            net.bus.taps.append(tap)
+        elif fault[0] == 'abort':
+            def tap(fr):
+                if on_pair(fr) == fault[1]:
+                    def fire():
+                        y.silent_from = len(net.bus.log)
+                        data = R.tp21_abort(1, 0xD000) if dll == 'j1939-21' else R.tp22_cm(15, 0, 0xFFFFFF, 0xFFFFFF, 0xFF, 1, 0xD000)
+                        pf = 0xEC if dll == 'j1939-21' else 0x4D
+                        net.bus.ghost_node().send((7 << 26) | (pf << 16) | (XA << 8) | YA, bytes(data), fd=(dll == 'j1939-22'))
+                    w.at(w.now + 2e-4, fire)
+            net.bus.taps.append(tap)
+        probs = []
+        first = msg(XA, 'p2p', YA, big)
+        r = net.submit(first, 1)
+        if r is not True:
+            probs.append("send_pgn returned %r on an idle stack" % (r,))
+        w.run_for(tau)
+        if dll == 'j1939-22':
+            # the first one is long enough to be still running when the others start
+            burst = [msg(XA, 'p2p', ZB, 2400 + big)] + [msg(XA, 'p2p', ZB, big * 4 + 60 * i) for i in range(1, 7)]
+        else:
+            burst = [msg(XA, 'p2p', ZB, big), msg(XB, 'p2p', ZB, big + 1), msg(XB, 'p2p', ZA, big + 2)]
+        res = [net.submit(burst[0], 2)]
+        w.run_for(0.03)
+        for i, m in enumerate(burst[1:]):
+            res.append(net.submit(m, 3 + i))
+        w.run_for(5.0)
+        # the first transfer may legitimately fail: judge the burst only
+        from ..net import payload
+        first_pl = bytes(payload(first['size'], 0, 1 + first['src']))
+        net.sent = net.sent[1:]
+        net.rec.items = [x for x in net.rec.items if x[5] != first_pl and not net._is_ack(x[5])]
+        if any(x is not True for x in res):
+            probs.append("burst after a transfer with %s: send_pgn results %r with free sessions / pairs" % (fault[0], res))
+        jd = net.judge_deliveries(tolerate_ack=False)
+        if jd:
+            probs.append("burst after a transfer with %s: accepted message(s) not delivered intact" % fault[0])
+        probs += [x for x in net.job_problems()]
+        y.silent_from = None
+        probs += [p for p in net.idle_problems() if p.startswith('X ') or p.startswith('Z ')]
+        acc.case((cfg, fault, tau), outcome=net.outcome())
+        if probs:
+            acc.violation(csig(probs), {'burst': {'cfg': list(cfg), 'fault': list(fault), 'tau': tau}}, None, probs[:3])
+    finally:
+        net.close()
+    acc.sample({'burst_after': list(fault), 'tau_s': tau, 'cfg': list(cfg)})
+    return acc
+
+
 def csig(probs):
     import re
     p = probs[0]
@@ -366,6 +451,27 @@ def run(tier, seed):
     except RuntimeError as e:
         print("HARNESS-ERROR property=%s\n%s" % (PROP, e))
         return 2
+    # non-quiescent histories (bursts while the tail of a faulty transfer is still in flight)
+    from ..runner import make_pool, pmap, merge
+    items = []
+    for cfg in cfgs:
+        nfr = nframes(cfg[1], 'p2p', min(cfg[2], cfg[3]))
+        faults = [('abort', k) for k in range(0, 3)] + [('lost', k) for k in range(nfr)] + [('silent', k) for k in (1, 2, nfr - 1)]
+        for f in faults:
+            for tau in (0.002, 0.02, 0.3, 1.27, 1.4):
+                items.append((cfg, f, tau, seed))
+    pool = make_pool()
+    try:
+        for r in pmap(pool, burst_worker, items, chunksize=2):
+            merge(acc, r, nontrivial, outcomes)
+            acc.transitions += r.evals
+    except RuntimeError as e:
+        print("HARNESS-ERROR property=%s\n%s" % (PROP, e))
+        return 2
+    finally:
+        pool.close()
+        pool.join()
+    acc.extra['non_quiescent_bursts'] = len(items)
     acc.extra['per_layer'] = info
     fix = all(v['frontier_emptied'] for v in info.values())
     return report(PROP, tier, seed, 'model_checking', acc, nontrivial, outcomes, RULE, ASSUME, t0,
@@ -373,6 +479,15 @@ def run(tier, seed):
 
 
 def replay(rec):
+    if 'burst' in rec['scenario']:
+        bu = rec['scenario']['burst']
+        a = burst_worker((_tup(bu['cfg']), _tup(bu['fault']), bu['tau'], rec.get('seed', 0)))
+        if a.violations:
+            print("REPRODUCED: " + "; ".join(a.violations[0]['detail']))
+            print("VIOLATION property=%s replay=(this file)" % PROP)
+            return 1
+        print("no violation on this tree")
+        return 0
     hist = [_tup(x) for x in rec['scenario']['history']]
     b = Built(hist)
     try:
